@@ -15,6 +15,9 @@ Init == \/ (Source = "uniform" /\ \E k \in 1..5, P \in (SUBSET (0..3)) \ {{}} : 
         \/ (Source = "file" /\ gid \in 1..Len(Data.graphs) /\ st = CapInit(LiveFn(Data.graphs[gid]), Len(Data.graphs[gid])))
 Next == st.ph # "done" /\ st' = CapStep(st) /\ UNCHANGED gid
 Spec == Init /\ [][Next]_vars
+\* liveness form of C17's termination clause: the estimation machine always reaches its final phase
+FairSpec == Spec /\ WF_vars(Next)
+Termination == <>(st.ph = "done")
 Le4 == EstimatesLe4(st)
 RegExact == RegularExact(st)
 UniformIsRegular == (Source = "uniform" /\ st.ph # "scc") => st.reg = Cardinality(st.out[0])
